@@ -17,6 +17,7 @@ CONSTANTS N,          \* table length
           KS,         \* payload variants per type, subset of 1..8
           AddCs,      \* comments offered to add:     0 = default, 1, 2, 9 = unencodable
           RepCs,      \* comments offered to replace: -1 = none given, 1, 2, 9
+          SetTypes,   \* writable types that have a convenience setter
           DescSel,    \* which initial-file descriptors to start from
           Readers     \* reader calls offered as actions: subset of ReaderKinds
 
@@ -98,7 +99,7 @@ ReadOps      == {ReadOp(w, t) : w \in Readers, t \in WT}
 
 MutOps == {AddOp(u, c) : u \in UNION {Pay(t) : t \in WT}, c \in AddCs}
           \cup {RepOp(u, c) : u \in UNION {Pay(t) : t \in WT}, c \in RepCs}
-          \cup {SetOp(u) : u \in UNION {Pay(t) : t \in WT}}
+          \cup {SetOp(u) : u \in UNION {Pay(t) : t \in SetTypes}}
           \cup {RemOp(t) : t \in Types}
 AllOps == MutOps \cup ReadOps \cup {Plain("allow_write"), Plain("enter"), Plain("exit"), Plain("exit_exc")}
 
@@ -122,8 +123,8 @@ AddOk(u, c)        == Ok(AddOp(u, c))
 AddNo(u, c, cause) == No(AddOp(u, c), cause)
 RepOk(u, c)        == Ok(RepOp(u, c))
 RepNo(u, c, cause) == No(RepOp(u, c), cause)
-SetOk(u)           == Ok(SetOp(u))
-SetNo(u, cause)    == No(SetOp(u), cause)
+SetOk(u)           == TypeOfU(u) \in SetTypes /\ Ok(SetOp(u))
+SetNo(u, cause)    == TypeOfU(u) \in SetTypes /\ No(SetOp(u), cause)
 RemOk(t)           == Ok(RemOp(t))
 RemNo(t, cause)    == No(RemOp(t), cause)
 AllowWrite         == Do(Plain("allow_write"))
